@@ -273,6 +273,35 @@ func c02Enumerate(tier string, seed int64, emit func(string, any)) {
 			}
 		}
 	}
+	// ---- F': bound methods are values of their own: a method taken from one receiver stays bound to it while the same
+	// method of another receiver is looked up, called, nested inside its arguments
+	attr := func(o *Node, name string) *Node { return &Node{K: KAttr, A: o, S: name} }
+	for _, in := range inits[:2] {
+		for _, m := range []string{"push", "pop", "shift", "sum", "len", "kh", "kl"} {
+			arg := []*Node{}
+			if m == "push" {
+				arg = []*Node{Int(7)}
+			}
+			for _, other := range []string{"push", "pop", "sum", "kh", "len"} {
+				oarg := []*Node{}
+				if other == "push" {
+					oarg = []*Node{Int(9)}
+				}
+				obs := Arr(Var("r"), a, b)
+				one("F bound methods", append(append([]*Node{}, in...), Assign("m", attr(a, m)), Method(b, other, oarg...), Assign("r", Call(Var("m"), arg...)), obs))
+				one("F bound methods", append(append([]*Node{}, in...), Assign("m", attr(a, m)), Assign("n", attr(b, other)), Assign("r", Arr(Call(Var("m"), arg...), Call(Var("n"), oarg...))), obs))
+				one("F bound methods", append(append([]*Node{}, in...), Assign("m", attr(b, m)), Assign("t", attr(a, other)), Assign("r", Call(Var("m"), arg...)), obs))
+			}
+		}
+		// a method call nested in the arguments of the same method of another receiver
+		for _, m := range []string{"kh", "kl"} {
+			one("F bound methods", append(append([]*Node{}, in...), Method(Arr(Int(1), Int(2)), m, Method(Arr(Int(5), Int(6)), m))))
+			one("F bound methods", append(append([]*Node{}, in...), Method(a, m, Method(Arr(Int(2), Int(1)), m))))
+			one("F bound methods", append(append([]*Node{}, in...), Bin("+", Method(a, m), Method(Arr(Int(8), Int(9)), m))))
+		}
+		one("F bound methods", append(append([]*Node{}, in...), Method(a, "push", Method(Arr(Int(5), Int(6)), "pop")), Arr(a, b)))
+		one("F bound methods", append(append([]*Node{}, in...), Method(a, "push", Method(Arr(Int(5), Int(6)), "push", Int(1))), Arr(a, b)))
+	}
 	// ---- G: histories: ordered pairs of programs on one VM (incl. failing ones)
 	pool := [][]*Node{
 		{Assign("x", Int(5))}, {Assign("x", Arr(Int(1)))}, {x}, {Bin("+", x, Int(1))}, {Method(x, "push", Int(2))}, {Assign("x", Int(1)), Bin("/", Int(1), Int(0))}, {Bin("/", Int(1), Int(0)), Assign("x", Int(2))},
